@@ -356,6 +356,128 @@ fn to_expr(j: &J) -> Result<Expression, String> {
     })
 }
 
+// ---------------------------------------------------------------------------
+// engine-object probes: does the compiled regex / regex set / automaton stored
+// in a tree behave like the one its (pattern text, flag, needle list) describes?
+// (The checks' models are built from the described form.)
+
+fn probe_strings(text: &str) -> Vec<String> {
+    let mut out: Vec<String> = vec![];
+    let mut runs: Vec<String> = vec![];
+    let mut cur = String::new();
+    for c in text.chars() {
+        if c.is_alphanumeric() {
+            cur.push(c);
+        } else if !cur.is_empty() {
+            runs.push(cur.clone());
+            cur.clear();
+        }
+    }
+    if !cur.is_empty() {
+        runs.push(cur);
+    }
+    runs.push(text.to_string());
+    for r in runs {
+        let last = r.chars().last().map(|c| c.to_string()).unwrap_or_default();
+        for v in [r.clone(), format!("{}{}", r, last), format!("x{}", r), format!("{}x", r)] {
+            out.push(v.clone());
+            out.push(v.to_uppercase());
+            out.push(v.to_lowercase());
+        }
+    }
+    out.sort();
+    out.dedup();
+    out
+}
+
+fn combined_probes(texts: &[String]) -> Vec<String> {
+    let mut out: Vec<String> = vec![];
+    for t in texts {
+        out.extend(probe_strings(t));
+    }
+    // every member at once (so that an all()/of() over the members is decided by case folding alone)
+    let runs: Vec<String> = texts
+        .iter()
+        .map(|t| t.chars().filter(|c| c.is_alphanumeric()).collect::<String>())
+        .collect();
+    for sep in ["", " "] {
+        let j = runs.join(sep);
+        out.push(j.clone());
+        out.push(j.to_uppercase());
+        out.push(j.to_lowercase());
+    }
+    out.sort();
+    out.dedup();
+    out
+}
+
+fn probe_search(s: &Search, field: &str, out: &mut Vec<J>) {
+    let mut push = |p: &str, what: String| {
+        out.push(json!({"field": jb(field), "probe": jb(p), "what": what}));
+    };
+    match s {
+        Search::Regex(r, i) => {
+            if let Ok(fresh) = regex::RegexBuilder::new(r.as_str()).case_insensitive(*i).build() {
+                let mut n = 0;
+                for p in probe_strings(r.as_str()) {
+                    if fresh.is_match(&p) != r.is_match(&p) && n < 6 {
+                        n += 1;
+                        push(&p, format!("regex({}) with flag {} behaves differently from the compiled object", r.as_str(), i));
+                    }
+                }
+            }
+        }
+        Search::RegexSet(set, i) => {
+            let pats: Vec<String> = set.patterns().to_vec();
+            let fresh: Vec<Option<regex::Regex>> = pats.iter().map(|p| regex::RegexBuilder::new(p).case_insensitive(*i).build().ok()).collect();
+            let mut n = 0;
+            for p in combined_probes(&pats) {
+                let m = set.matches(&p);
+                let differs = fresh.iter().enumerate().any(|(k, f)| f.as_ref().map(|f| f.is_match(&p) != m.matched(k)).unwrap_or(false));
+                if differs && n < 8 {
+                    n += 1;
+                    push(&p, format!("regex_set {:?} with flag {} behaves differently from the compiled set", pats, i));
+                }
+            }
+        }
+        Search::AhoCorasick(a, m, i) => {
+            let needles: Vec<String> = m.iter().map(|x| x.value().clone()).collect();
+            if let Ok(fresh) = aho_corasick::AhoCorasickBuilder::new()
+                .ascii_case_insensitive(*i)
+                .kind(Some(aho_corasick::AhoCorasickKind::DFA))
+                .build(&needles)
+            {
+                let mut n = 0;
+                for p in combined_probes(&needles) {
+                    let mut x: Vec<(usize, usize, usize)> = fresh.find_overlapping_iter(&p).map(|h| (h.pattern().as_usize(), h.start(), h.end())).collect();
+                    let mut y: Vec<(usize, usize, usize)> = a.find_overlapping_iter(&p).map(|h| (h.pattern().as_usize(), h.start(), h.end())).collect();
+                    x.sort();
+                    y.sort();
+                    if x != y && n < 8 {
+                        n += 1;
+                        push(&p, format!("automaton over {:?} with flag {} behaves differently from the compiled one (needles and member kinds misaligned?)", needles, i));
+                    }
+                }
+            }
+        }
+        _ => {}
+    }
+}
+
+fn probe_expr(e: &Expression, out: &mut Vec<J>) {
+    match e {
+        Expression::BooleanGroup(_, g) => g.iter().for_each(|x| probe_expr(x, out)),
+        Expression::BooleanExpression(l, _, r) => {
+            probe_expr(l, out);
+            probe_expr(r, out);
+        }
+        Expression::Match(_, x) | Expression::Negate(x) | Expression::Nested(_, x) => probe_expr(x, out),
+        Expression::Matrix(_, rows) => rows.iter().for_each(|r| r.iter().flatten().for_each(|x| probe_expr(x, out))),
+        Expression::Search(s, f, _) => probe_search(s, f, out),
+        _ => {}
+    }
+}
+
 fn token(t: &Token) -> J {
     json!(format!("{:?}", t))
 }
@@ -388,7 +510,13 @@ fn rule_json(rule: &Rule) -> J {
     let mut ids: Vec<(&String, &Expression)> = rule.detection.identifiers.iter().collect();
     let order: Vec<J> = ids.iter().map(|(k, _)| jb(k)).collect();
     ids.sort_by(|a, b| a.0.cmp(b.0));
+    let mut probes = vec![];
+    probe_expr(&rule.detection.expression, &mut probes);
+    for (_, v) in &ids {
+        probe_expr(v, &mut probes);
+    }
     json!({
+        "engine_probe_mismatches": probes,
         "expr": expr(&rule.detection.expression),
         "idents": ids.iter().map(|(k, v)| json!([jb(k), expr(v)])).collect::<Vec<_>>(),
         "ident_iter_order": order,
@@ -520,7 +648,11 @@ fn handle(req: &J) -> Result<J, String> {
             let needles: Vec<String> = req["needles"].as_array().ok_or("needles")?.iter().map(|n| bytes_to_string(n)).collect::<Result<_, _>>()?;
             let hay = bytes_to_string(&req["hay"])?;
             let i = req["i"].as_bool().unwrap_or(false);
-            let hits = aho_hits(&needles, i, &hay);
+            let hits = if req["overlapping"].as_bool().unwrap_or(true) {
+                aho_hits(&needles, i, &hay)
+            } else {
+                aho_hits_nonoverlapping(&needles, i, &hay)
+            };
             Ok(json!({"ok": true, "hits": hits}))
         }
         "regex" => {
@@ -557,6 +689,19 @@ fn show_value(v: &Value) -> J {
 // ground truth for the contract models of the third-party engines: the same
 // crates at the versions /repo's Cargo.lock pins, built the way parser.rs and
 // optimiser.rs build them
+fn aho_hits_nonoverlapping(needles: &[String], insensitive: bool, hay: &str) -> J {
+    let a = aho_corasick::AhoCorasickBuilder::new()
+        .ascii_case_insensitive(insensitive)
+        .kind(Some(aho_corasick::AhoCorasickKind::DFA))
+        .build(needles)
+        .expect("failed to build dfa");
+    J::Array(
+        a.find_iter(hay)
+            .map(|m| json!([m.pattern().as_usize(), m.start(), m.end()]))
+            .collect(),
+    )
+}
+
 fn aho_hits(needles: &[String], insensitive: bool, hay: &str) -> J {
     let a = aho_corasick::AhoCorasickBuilder::new()
         .ascii_case_insensitive(insensitive)
